@@ -312,6 +312,25 @@ def _segment(draw, o, groups, chans, counters, version, si):
     return seg
 
 
+@st.composite
+def shorten_interleaved_middle(draw, fs):
+    """Give one interleaved segment that is NOT the last one an incomplete final chunk (lead-in states the shortened size).
+    Returns fs unchanged when there is no such segment."""
+    segs = fs['segments']
+    cands = []
+    for i, sg in enumerate(segs[:-1]):
+        if sg.get('interleaved') and sg.get('nchunks', 0) >= 1 and sg.get('active') and not sg.get('marker'):
+            stride = sum(tsize(t) for (_p, t, _n) in sg['active'])
+            size = stride * sg['active'][0][2]
+            if size >= 2:
+                cands.append((i, size))
+    if not cands:
+        return fs
+    i, size = draw(st.sampled_from(cands))
+    trim = draw(st.integers(1, size - 1))
+    return {'segments': [dict(sg, trim_raw=trim) if k == i else sg for k, sg in enumerate(segs)]}
+
+
 def spec_classes(fs):
     """labels describing a file spec (for class histograms)"""
     labels = set()
@@ -325,6 +344,8 @@ def spec_classes(fs):
         labels.add('multi_chunk')
     if any(s.get('pad') for s in segs):
         labels.add('padding')
+    if any(s.get('trim_raw') for s in segs[:-1]):
+        labels.add('short_final_chunk_in_middle_segment')
     if any(s.get('nchunks', 0) == 0 and any(a[2] > 0 for a in (s.get('active') or [])) for s in segs):
         labels.add('declaring_segment_without_raw_data')
     if any(not s.get('meta', True) for s in segs):
